@@ -45,7 +45,8 @@ def note(ctx, case, iters, extra=()):
         ctx.event("empty-chunk")
     s = case["sched"]
     ctx.note(len(ch) >= 2 and len(set(ch)) >= 2 and iters >= 2 and (s["isolate"] or s["order"] != "fifo"),
-             "chunks=%d" % min(len(ch), 6), "single-row-chunk" if 1 in ch else None,
+             "chunks=%d" % min(len(ch), 6), "chunks>=9" if len(ch) >= 9 else None, "chunks>=17" if len(ch) >= 17 else None,
+             "single-row-chunk" if 1 in ch else None,
              "isolate" if s["isolate"] else "shared", "order:" + s["order"],
              "feature-chunks" if case.get("fchunks") and len(case["fchunks"]) > 1 else None, *extra)
 
@@ -66,7 +67,7 @@ def g_km(draw):
             c["init"] = {"method": "random", "init": None, "seed": c["init"]["seed"]}
     c["thr"] = gen.choice(draw, [None, 1e-1, 1e-2, 0.3, 1e-5])
     c["cap"] = gen.choice(draw, [1, 2, 3, 5, 8, 12])
-    c["chunks"] = gen.composition(draw, X.shape[0], max_parts=6)
+    c["chunks"] = gen.composition(draw, X.shape[0], max_parts=gen.choice(draw, [6, 6, None]))
     if c["init"]["method"] == "array":
         # dask-ml's seeded initialisers cannot handle zero-length blocks (third party): only with explicit centroids
         c["chunks"] = gen.with_empty_chunks(draw, c["chunks"])
@@ -115,13 +116,13 @@ def c_km(ctx, case):
 # ---------------------------------------------------------------------------- GMM
 
 def g_gmm(draw):
-    c = gen.gmm_training_case(draw, max_rows=30, min_rows=4)
+    c = gen.gmm_training_case(draw, max_rows=gen.choice(draw, [30, 30, 70]), min_rows=4)
     c["trainer"] = gen.choice(draw, ["ml", "ml", "map"])
     c["init_by_kmeans"] = c["trainer"] == "ml" and gen.choice(draw, [False, False, True])
     c["thr"] = gen.choice(draw, [None, 1e-2, 1e-1, 1e-3, 3e-2])
     c["cap"] = gen.choice(draw, [1, 2, 3, 5, 8])
     c["relevance"] = float(10.0 ** gen.integer(draw, -1, 2))
-    c["chunks"] = gen.with_empty_chunks(draw, gen.composition(draw, c["X"].shape[0], max_parts=6))
+    c["chunks"] = gen.with_empty_chunks(draw, gen.composition(draw, c["X"].shape[0], max_parts=gen.choice(draw, [6, 6, None])))
     c["fchunks"] = gen.composition(draw, c["X"].shape[1], max_parts=3)
     c["sched"] = schedule(draw)
     if c["trainer"] == "map":
